@@ -93,23 +93,35 @@ theorem pass2_body (t : SymTab) (done : List ObjBlock) : ∀ (body : List Stmt) 
       · simp only [bodyWords, hws, hrs]
       · rw [hst']; simp
 
-/-- statements outside blocks that the second pass skips -/
-theorem pass2_gap (t : SymTab) : ∀ (gap : List Stmt) (st st' : P2), (∀ s ∈ gap, isExternal s.nucleus = true) →
-    gap.foldlM (pass2Step t) st = .ok st' → st' = st := by
+/-- statements outside blocks: the second pass accepts only `.external` there, and skips it -/
+theorem pass2_gap (t : SymTab) (done : List ObjBlock) : ∀ (gap : List Stmt) (st' : P2), (∀ s ∈ gap, isOrigEnd s.nucleus = false) →
+    gap.foldlM (pass2Step t) ⟨done, none⟩ = .ok st' → st' = ⟨done, none⟩ ∧ ∀ s ∈ gap, isExternal s.nucleus = true := by
   intro gap
   induction gap with
-  | nil => intro st st' _ h; simp only [List.foldlM_nil] at h; cases h; rfl
+  | nil => intro st' _ h; simp only [List.foldlM_nil] at h; cases h; exact ⟨rfl, fun s hs => by cases hs⟩
   | cons s rest ih =>
-    intro st st' hk h
+    intro st' hk h
     rw [List.foldlM_cons] at h
-    have hs : pass2Step t st s = .ok st := by
-      have := hk s (by simp)
-      unfold pass2Step
-      cases hn : s.nucleus with
-      | instr i => rw [hn] at this; cases this
-      | directive d => cases d <;> first | rfl | (rw [hn] at this; cases this)
-    rw [hs] at h
-    exact ih st st' (fun x hx => hk x (by simp [hx])) h
+    have hs : pass2Step t ⟨done, none⟩ s = .ok ⟨done, none⟩ ∧ isExternal s.nucleus = true := by
+      have hoe := hk s (by simp)
+      cases hp : pass2Step t ⟨done, none⟩ s with
+      | error e => rw [hp] at h; cases h
+      | ok st1 =>
+        unfold pass2Step at hp
+        cases hn : s.nucleus with
+        | instr i => rw [hn] at hp; cases hp
+        | directive d =>
+          rw [hn] at hp hoe
+          cases d with
+          | orig a => cases hoe
+          | end_ => cases hoe
+          | external l => cases hp; exact ⟨rfl, rfl⟩
+          | fill v => cases hp
+          | blkw n => cases hp
+          | stringz x => cases hp
+    rw [hs.1] at h
+    obtain ⟨h1, h2⟩ := ih st' (fun x hx => hk x (by simp [hx])) h
+    exact ⟨h1, fun x hx => by rcases List.mem_cons.mp hx with rfl | hx; exact hs.2; exact h2 x hx⟩
 
 /-- one block of the source: statements skipped before it (`.external`), its `.orig`, its body, its `.end` -/
 structure Blk where
@@ -122,7 +134,7 @@ structure Blk where
 def Blk.stmts (b : Blk) : List Stmt := b.gap ++ b.origS :: (b.body ++ [b.endS])
 
 structure Blk.WF (b : Blk) : Prop where
-  gap : ∀ s ∈ b.gap, isExternal s.nucleus = true
+  gap : ∀ s ∈ b.gap, isOrigEnd s.nucleus = false
   orig : b.origS.nucleus = .directive (.orig b.a)
   body : ∀ s ∈ b.body, isOrigEnd s.nucleus = false
   end_ : b.endS.nucleus = .directive .end_
@@ -148,10 +160,11 @@ theorem pass2_block (t : SymTab) (done : List ObjBlock) (b : Blk) (hb : b.WF) (s
     (h : b.stmts.foldlM (pass2Step t) ⟨done, none⟩ = .ok st') :
     ∃ ws, bodyWords t b.a b.body = .ok ws ∧ st' = ⟨addBlk t done b, none⟩ ∧
       (ws.isEmpty = false → (neighbours done b.a).find? (fun x =>
-        rangesOverlap b.a.toNat (b.a.toNat + ws.length) x.start.toNat x.stop) = none) := by
+        rangesOverlap b.a.toNat (b.a.toNat + ws.length) x.start.toNat x.stop) = none) ∧
+      (∀ s ∈ b.gap, isExternal s.nucleus = true) := by
   unfold Blk.stmts at h
   obtain ⟨s1, h1, h2⟩ := foldlM_append_ok2 _ _ _ _ _ h
-  have := pass2_gap t b.gap _ s1 hb.gap h1
+  obtain ⟨this, hext⟩ := pass2_gap t done b.gap s1 hb.gap h1
   subst this
   rw [List.foldlM_cons] at h2
   have ho : pass2Step t ⟨done, none⟩ b.origS = .ok ⟨done, some (b.a, ⟨b.a, [], b.origS.span⟩)⟩ := by
@@ -169,18 +182,18 @@ theorem pass2_block (t : SymTab) (done : List ObjBlock) (b : Blk) (hb : b.WF) (s
   rw [hws]
   by_cases he : ws.isEmpty = true
   · simp only [he, if_true] at h4 ⊢
-    cases h4; exact ⟨rfl, fun h => by cases h⟩
+    cases h4; exact ⟨rfl, (fun h => by cases h), hext⟩
   · simp only [he, Bool.false_eq_true, if_false] at h4 ⊢
     split at h4
     · cases h4
     · rename_i hnone
       cases h4
-      refine ⟨rfl, fun _ => ?_⟩
+      refine ⟨rfl, fun _ => ?_, hext⟩
       simpa [ObjBlock.stop] using hnone
 
 /-- the second pass over a whole program: block after block -/
 theorem pass2_blocks (t : SymTab) : ∀ (blks : List Blk) (done : List ObjBlock) (tail : List Stmt) (st' : P2),
-    (∀ b ∈ blks, b.WF) → (∀ s ∈ tail, isExternal s.nucleus = true) →
+    (∀ b ∈ blks, b.WF) → (∀ s ∈ tail, isOrigEnd s.nucleus = false) →
     (blks.flatMap Blk.stmts ++ tail).foldlM (pass2Step t) ⟨done, none⟩ = .ok st' →
     st' = ⟨blks.foldl (addBlk t) done, none⟩ ∧ ∀ b ∈ blks, ∃ ws, bodyWords t b.a b.body = .ok ws := by
   intro blks
@@ -188,12 +201,12 @@ theorem pass2_blocks (t : SymTab) : ∀ (blks : List Blk) (done : List ObjBlock)
   | nil =>
     intro done tail st' _ ht h
     simp only [List.flatMap_nil, List.nil_append] at h
-    exact ⟨pass2_gap t tail _ st' ht h, fun b hb => by cases hb⟩
+    exact ⟨(pass2_gap t done tail st' ht h).1, fun b hb => by cases hb⟩
   | cons b rest ih =>
     intro done tail st' hwf ht h
     simp only [List.flatMap_cons, List.append_assoc] at h
     obtain ⟨s1, h1, h2⟩ := foldlM_append_ok2 _ _ _ _ _ h
-    obtain ⟨ws, hws, hs1, _⟩ := pass2_block t done b (hwf b (by simp)) s1 h1
+    obtain ⟨ws, hws, hs1, _, _⟩ := pass2_block t done b (hwf b (by simp)) s1 h1
     subst hs1
     obtain ⟨h3, h4⟩ := ih (addBlk t done b) tail st' (fun x hx => hwf x (by simp [hx])) ht h2
     refine ⟨by rw [h3]; rfl, fun x hx => ?_⟩
@@ -320,9 +333,10 @@ theorem addBlk_inv (t : SymTab) (done : List ObjBlock) (b : Blk) (hd : DoneInv d
 /-- the second pass over a whole program, with the invariants: the finished blocks are exactly the non-empty blocks of the
     source, each with the words of its body, sorted by start -/
 theorem pass2_image_gen (t : SymTab) : ∀ (blks : List Blk) (done : List ObjBlock) (tail : List Stmt) (st' : P2),
-    (∀ b ∈ blks, b.WF) → (∀ s ∈ tail, isExternal s.nucleus = true) → DoneInv done →
+    (∀ b ∈ blks, b.WF) → (∀ s ∈ tail, isOrigEnd s.nucleus = false) → DoneInv done →
     (blks.flatMap Blk.stmts ++ tail).foldlM (pass2Step t) ⟨done, none⟩ = .ok st' →
     st'.current = none ∧ DoneInv st'.done ∧ (∀ x ∈ done, x ∈ st'.done) ∧
+    ((∀ b ∈ blks, ∀ s ∈ b.gap, isExternal s.nucleus = true) ∧ ∀ s ∈ tail, isExternal s.nucleus = true) ∧
     (∀ b ∈ blks, ∃ ws, bodyWords t b.a b.body = .ok ws ∧ (ws ≠ [] → ⟨b.a, ws, b.origS.span⟩ ∈ st'.done)) ∧
     (∀ x ∈ st'.done, x ∈ done ∨ ∃ b ∈ blks, ∃ ws, bodyWords t b.a b.body = .ok ws ∧ ws ≠ [] ∧ x = ⟨b.a, ws, b.origS.span⟩) := by
   intro blks
@@ -330,18 +344,21 @@ theorem pass2_image_gen (t : SymTab) : ∀ (blks : List Blk) (done : List ObjBlo
   | nil =>
     intro done tail st' _ ht hd h
     simp only [List.flatMap_nil, List.nil_append] at h
-    have := pass2_gap t tail _ st' ht h
+    obtain ⟨this, hext⟩ := pass2_gap t done tail st' ht h
     subst this
-    exact ⟨rfl, hd, fun x hx => hx, (fun b hb => by cases hb), fun x hx => Or.inl hx⟩
+    exact ⟨rfl, hd, fun x hx => hx, ⟨(fun b hb => by cases hb), hext⟩, (fun b hb => by cases hb), fun x hx => Or.inl hx⟩
   | cons b rest ih =>
     intro done tail st' hwf ht hd h
     simp only [List.flatMap_cons, List.append_assoc] at h
     obtain ⟨s1, h1, h2⟩ := foldlM_append_ok2 _ _ _ _ _ h
-    obtain ⟨ws, hws, hs1, hov⟩ := pass2_block t done b (hwf b (by simp)) s1 h1
+    obtain ⟨ws, hws, hs1, hov, hext⟩ := pass2_block t done b (hwf b (by simp)) s1 h1
     subst hs1
     obtain ⟨a1, a2, a3, a4⟩ := addBlk_inv t done b hd (fun ws' hw' he' => by rw [hws] at hw'; cases hw'; exact hov he')
-    obtain ⟨r1, r2, r3, r4, r5⟩ := ih (addBlk t done b) tail st' (fun x hx => hwf x (by simp [hx])) ht a1 h2
-    refine ⟨r1, r2, fun x hx => r3 x (a2 x hx), fun x hx => ?_, fun x hx => ?_⟩
+    obtain ⟨r1, r2, r3, rext, r4, r5⟩ := ih (addBlk t done b) tail st' (fun x hx => hwf x (by simp [hx])) ht a1 h2
+    refine ⟨r1, r2, fun x hx => r3 x (a2 x hx), ⟨fun x hx => ?_, rext.2⟩, fun x hx => ?_, fun x hx => ?_⟩
+    · rcases List.mem_cons.mp hx with rfl | hx
+      · exact hext
+      · exact rext.1 x hx
     · rcases List.mem_cons.mp hx with rfl | hx
       · exact ⟨ws, hws, fun hne => r3 _ (a3 ws hws hne)⟩
       · exact r4 x hx
